@@ -409,6 +409,14 @@ def classify_one(prop, spec, k, m, ev):
         if "foreach" in uses:
             return "foreach-over-random-size-list-unguarded"
     if prop == "C20":
+        if k == "marginal-depends-on-later-variable" and isinstance(ev, dict) and ev.get("ranges") and ev.get("feasible") is not None:
+            # F36: the range inferred for the earlier variable contains a value that no solution has.  When that
+            # value is drawn as the target it is dropped and the variable stays open while the later group is
+            # randomized, so its final value depends on the later variable
+            inrange = set(v for lo, hi in ev["ranges"] for v in range(int(lo), int(hi) + 1)) if all(
+                int(hi) - int(lo) < 4096 for lo, hi in ev["ranges"]) else None
+            if inrange is not None and inrange - set(ev["feasible"]):
+                return "infeasible-target-leaves-earlier-variable-open"
         if k == "earlier-variable-value-starved" and _f8("feasible-value-starved", m, ev):
             return "swizzle-pins-low-bits-only"
         if k == "marginal-not-uniform" and isinstance(ev, dict) and ev.get("ranges") and len(ev["ranges"]) >= 2:
